@@ -324,6 +324,23 @@ Proof.
   rewrite E2. unfold walk_post. repeat split; try lia; try assumption.
 Qed.
 
+(* the same with the left-continuous convention (the lookup hands in such a span at the upper end of full support) *)
+Lemma adjust_interior_left c : Z.of_nat n <= c <= nknots - Z.of_nat n - 2 -> in_piece false c x ->
+  walk_post false c (adjust_left kn nknots (Z.of_nat n) x c).
+Proof.
+  intros Hc [P1 P2]. unfold adjust_left.
+  assert (E1 : (if c =? Z.of_nat n then walk_down kn (Z.to_nat (c + 1)) x c else c) = c).
+  { destruct (c =? Z.of_nat n); [|reflexivity].
+    destruct (Z.to_nat (c + 1)) as [|f] eqn:Ef; [reflexivity|]. cbn [walk_down].
+    rewrite (le_not_lt F _ _ (lt_le F _ _ P1)), andb_false_r. reflexivity. }
+  rewrite E1.
+  assert (E2 : (if c =? nknots - Z.of_nat n - 2 then walk_up kn nknots (Z.to_nat (nknots - 1 - c)) x c else c) = c).
+  { destruct (c =? nknots - Z.of_nat n - 2); [|reflexivity].
+    destruct (Z.to_nat (nknots - 1 - c)) as [|f] eqn:Ef; [reflexivity|]. cbn [walk_up]. unfold gtb.
+    rewrite (le_not_lt F _ _ P2), andb_false_r. reflexivity. }
+  rewrite E2. unfold walk_post. repeat split; try lia; try assumption.
+Qed.
+
 Lemma adjust_left_margin : lt (kn 0) x -> lt x (kn (Z.of_nat n)) ->
   walk_post true (Z.of_nat n) (adjust_left kn nknots (Z.of_nat n) x (Z.of_nat n)).
 Proof.
